@@ -1,6 +1,7 @@
 //! Executes scenarios against the real conserve library and logs what happens as ndjson events
 //! (the event language of spec/Trace.tla).
 
+use std::os::unix::ffi::OsStrExt;
 use std::collections::{BTreeMap, BTreeSet, HashMap};
 use std::fs;
 use std::panic::{AssertUnwindSafe, catch_unwind};
@@ -23,6 +24,8 @@ use crate::tree::{self, Node};
 
 /// Seconds a single API call may take before it is declared hung.
 pub const CALL_TIMEOUT_S: u64 = 20;
+/// Added to the timeout of the next call (a call with a deliberately slow storage verb); cleared by it.
+pub static EXTRA_TIMEOUT_S: AtomicU64 = AtomicU64::new(0);
 
 pub static WATCHDOG_DEADLINE: AtomicU64 = AtomicU64::new(0);
 
@@ -114,7 +117,8 @@ where
     Fut: std::future::Future<Output = Result<T, String>>,
 {
     let start = Instant::now();
-    WATCHDOG_DEADLINE.store(now_s() + CALL_TIMEOUT_S + 10, Ordering::SeqCst);
+    let call_timeout = CALL_TIMEOUT_S + EXTRA_TIMEOUT_S.swap(0, Ordering::SeqCst);
+    WATCHDOG_DEADLINE.store(now_s() + call_timeout + 10, Ordering::SeqCst);
     let rt = build_rt(flavor);
     let nodrain = flavor.ends_with("-nodrain");
     let mut out = CallOut {
@@ -128,7 +132,7 @@ where
     };
     let r = catch_unwind(AssertUnwindSafe(|| {
         rt.block_on(async {
-            let r = tokio::time::timeout(Duration::from_secs(CALL_TIMEOUT_S), f()).await;
+            let r = tokio::time::timeout(Duration::from_secs(call_timeout), f()).await;
             // let tasks spawned by the call (lock release in Drop) finish -- unless this flavour
             // models a program that exits as soon as the operation returns
             let t0 = Instant::now();
@@ -205,6 +209,17 @@ fn plan_of(step: &Value) -> Plan {
     if let Some(v) = step.get("fail_verbs").and_then(|x| x.as_array()) {
         p.fail_verbs = v.iter().filter_map(|x| x.as_str().map(|s| s.to_string())).collect();
     }
+    if let Some(ms) = step.get("stall_block").and_then(|x| x.as_u64()) {
+        p.stall_block_ms = Some(ms);
+        EXTRA_TIMEOUT_S.store(ms / 1000 + 5, Ordering::SeqCst);
+    }
+    // {"stall": [k, ms]}: the k-th storage verb of the call is slow
+    if let Some(a) = step.get("stall").and_then(|x| x.as_array()) {
+        if let (Some(k), Some(ms)) = (a.first().and_then(|x| x.as_u64()), a.get(1).and_then(|x| x.as_u64())) {
+            p.stall = Some((k as usize, ms));
+            EXTRA_TIMEOUT_S.store(ms / 1000 + 5, Ordering::SeqCst);
+        }
+    }
     p
 }
 
@@ -226,6 +241,12 @@ pub fn restore1(args: &[String]) {
     let excl: Vec<String> = args[5..].to_vec();
     let mon = TestMonitor::arc();
     let mon2 = mon.clone();
+    // a restore stuck in a blocking system call (opening a fifo, say) is reported as a timeout
+    std::thread::spawn(|| {
+        std::thread::sleep(Duration::from_secs(CALL_TIMEOUT_S + 5));
+        println!("{}", json!({"res": "timeout", "panic": false, "pmsg": "", "timeout": true, "mon_list": []}));
+        std::process::exit(0);
+    });
     let out = run_call("ct", &mon, || async move {
         let archive = Archive::open(Transport::local(&arch)).await.map_err(|e| err_name(&e))?;
         let options = RestoreOptions {
@@ -519,8 +540,36 @@ impl Runner {
             "walk" => self.do_walk(st),
             "bulk_probe" => self.do_bulk_probe(st),
             "leftover_block" => self.do_leftover_block(st),
+            "legacy_tails" => self.do_legacy_tails(st),
             other => panic!("unknown step op {other}"),
         }
+    }
+
+    /// Rewrite the tails of the archive's complete versions (all, or those named in `bands`) the
+    /// way releases before 0.6.4 wrote them: without a hunk count. The archive is then what such
+    /// a release would have left; every later step is judged as usual.
+    fn do_legacy_tails(&mut self, st: &Value) {
+        let only: Option<Vec<u64>> = st.get("bands").and_then(|x| x.as_array()).map(|a| a.iter().filter_map(|x| x.as_u64()).collect());
+        let mut n = 0;
+        if let Ok(rd) = fs::read_dir(&self.arch) {
+            for e in rd.flatten() {
+                let name = e.file_name().to_string_lossy().into_owned();
+                let Some(id) = name.strip_prefix('b').and_then(|x| x.parse::<u64>().ok()) else { continue };
+                if only.as_ref().is_some_and(|o| !o.contains(&id)) {
+                    continue;
+                }
+                let tail = e.path().join("BANDTAIL");
+                let Ok(bytes) = fs::read(&tail) else { continue };
+                let Ok(mut v) = serde_json::from_slice::<Value>(&bytes) else { continue };
+                if v.as_object_mut().and_then(|o| o.remove("index_hunk_count")).is_some() {
+                    fs::write(&tail, serde_json::to_vec(&v).unwrap()).unwrap();
+                    n += 1;
+                }
+            }
+        }
+        self.log.emit(json!({"ev": "note", "what": "legacy_tails", "n": n}));
+        self.log.emit(json!({"ev": "layout"}));
+        self.emit_fsck();
     }
 
     /// Sentinel files and directories beside the restore destinations (C16). Symlink targets in
@@ -846,7 +895,26 @@ impl Runner {
             "absent" => {}
             "nonempty" => {
                 fs::create_dir_all(&dest).unwrap();
-                fs::write(dest.join("preexisting"), b"keep me").unwrap();
+                // what the destination already holds: one entry of the given kind and name
+                let name_bytes: Vec<u8> = st.get("holds_name").and_then(|x| x.as_array())
+                    .map(|a| a.iter().filter_map(|b| b.as_u64().map(|b| b as u8)).collect())
+                    .unwrap_or_else(|| b"preexisting".to_vec());
+                let name = std::ffi::OsStr::from_bytes(&name_bytes);
+                let at = dest.join(name);
+                match st.get("holds").and_then(|x| x.as_str()).unwrap_or("file") {
+                    "symlink_out" => std::os::unix::fs::symlink(outside.join("sentinel_file"), &at).unwrap(),
+                    "symlink_dir_out" => std::os::unix::fs::symlink(outside.join("sentinel_dir"), &at).unwrap(),
+                    "dangling" => std::os::unix::fs::symlink("nowhere/at/all", &at).unwrap(),
+                    "emptydir" => fs::create_dir(&at).unwrap(),
+                    "emptyfile" => fs::write(&at, b"").unwrap(),
+                    "fifo" => {
+                        let ok = std::process::Command::new("mkfifo").arg(&at).status().map(|s| s.success()).unwrap_or(false);
+                        if !ok {
+                            fs::write(&at, b"keep me").unwrap();
+                        }
+                    }
+                    _ => fs::write(&at, b"keep me").unwrap(),
+                }
             }
             _ => fs::create_dir_all(&dest).unwrap(),
         }
